@@ -88,7 +88,56 @@ def run(pid, tier, seed, rundir, model_run):
     n = 45 * (12 if tier == "thorough" else 1)
     nrun = 0
     for i in range(n):
-        mode = ["local", "ssh", "stale"][i % 3]
+        mode = ["local", "ssh", "stale", "seq"][i % 4]
+        if mode == "seq":
+            # a SEQUENCE of runs by several clients against one hub, back to back (same wall-clock second), over a few
+            # shared paths with equal-length contents: whatever the hub remembers between sessions (listings, caches
+            # keyed by size/mtime) must not make a later client skip a file the hub no longer holds
+            with Sandbox("C13") as sb:
+                hubroot_rel = "hubdir"
+                hubroot = os.path.join(sb.home, hubroot_rel)
+                os.makedirs(hubroot, exist_ok=True)
+                use_ssh = rng.coin(1, 2)
+                target = f"{HOST}:{hubroot_rel}" if use_ssh else hubroot
+                shared = [rng.pick(NAMES) for _ in range(2)]
+                shared = [x for j, x in enumerate(shared) if not any(x != y and (x.startswith(y + "/") or y.startswith(x + "/")) for y in shared[:j])]
+                same_len = [b"0041\n", b"0042\n", b"0043\n", b"00\n44"]
+                nclients = rng.range(2, 3)
+                trees = []
+                for c in range(nclients):
+                    t = {k: rng.pick(same_len) for k in shared if rng.coin(4, 5)}
+                    if not t:
+                        t[shared[0]] = rng.pick(same_len)
+                    lr = sb.path(f"client{c}"); sb.write_tree(lr, t); os.makedirs(lr, exist_ok=True)
+                    trees.append((lr, t))
+                hist = []
+                count("mode/seq")
+                for step in range(rng.range(3, 6)):
+                    c = rng.below(nclients)
+                    lr, t = trees[c]
+                    if rng.coin(1, 3):
+                        k = sorted(t)[rng.below(len(t))]
+                        t[k] = rng.pick(same_len); sb.write_tree(lr, {k: t[k]})
+                        hist.append(f"client{c} edits {k}")
+                    hub_before = hub_state(hubroot)
+                    rc, out, err = sb.run(["hub-sync", lr, target])
+                    out = out.decode("utf-8", "replace"); err = err.decode("utf-8", "replace")
+                    nrun += 1
+                    hist.append(f"client{c} hub-sync rc={rc} {out.strip()[-60:]}")
+                    hub1 = hub_state(hubroot)
+                    rep = {"mode": "seq" + ("/ssh" if use_ssh else "/local"), "history": list(hist), "local": {k: v.decode() for k, v in t.items()}}
+                    if rc == 0:
+                        for k, v in t.items():
+                            if hub1.get(k) != v:
+                                res["violations"].append(("exit0-but-local-file-not-on-hub", f"after a sequence of runs by several clients, hub-sync exited 0 but hub/{k} does not hold the local bytes", rep))
+                        cnt = parse_counts(out)
+                        need = sum(1 for k, v in t.items() if hub_before.get(k) != v)
+                        if cnt is not None and cnt[0] != need:
+                            res["violations"].append(("sent-count-ne-differing-files", f"{cnt[0]} file(s) sent but {need} local file(s) differed from the hub before the run", rep))
+                    else:
+                        # sequential runs never race: the listing is never stale, so there is no excuse for a conflict exit
+                        res["violations"].append(("nonzero-exit-without-interference", f"hub-sync rc={rc} in a strictly sequential history: {err[-200:]}", rep))
+            continue
         with Sandbox("C13") as sb:
             hubroot_rel = "hubdir"
             hubroot = os.path.join(sb.home, hubroot_rel)
